@@ -211,6 +211,8 @@ def hlookup(lookup_value, table_array, row_index_num, range_lookup=True):
     if not list_like(table_array):
         return NA_ERROR
 
+    # a fraction of a row is dropped
+    row_index_num = int(row_index_num)
     if row_index_num <= 0:
         return VALUE_ERROR
 
@@ -251,6 +253,10 @@ def index(array, row_num, col_num=None):
         ref_addr = array[0][0].address_at_offset
     else:
         ref_addr = None
+
+    # a fraction of a row / column is dropped
+    row_num = row_num and int(row_num)
+    col_num = col_num and int(col_num)
 
     def array_data(row, col):
         if ref_addr:
@@ -487,6 +493,8 @@ def vlookup(lookup_value, table_array, col_index_num, range_lookup=True):
     if not list_like(table_array):
         return NA_ERROR
 
+    # a fraction of a column is dropped
+    col_index_num = int(col_index_num)
     if col_index_num <= 0:
         return '#VALUE!'
 
